@@ -454,6 +454,25 @@ func templates() []template {
 				},
 			}
 		}},
+		{name: "trylock||trylock||lock(fresh-name)", props: []string{"C02", "C01"}, bound: 2, prog: func(t *testing.T) conc.Program {
+			return conc.Program{
+				Setup: func() any { return newWorld(t, cfgFile(), "s1", "s2", "s3") },
+				Threads: []conc.Thread{
+					{Name: "A", Run: func(c any) { c.(*world).tryLock("A", "s1", "x", nil, nil, "a") }},
+					{Name: "B", Run: func(c any) { c.(*world).tryLock("B", "s2", "x", nil, nil, "b") }},
+					{Name: "L", Run: func(c any) { c.(*world).lock("L", "s3", "x", nil, nil, p32(2), "l") }},
+				},
+				Ticks: []time.Duration{2 * time.Second},
+				Finish: func(c any) conc.Outcome {
+					w := c.(*world)
+					return finish(w, func() {
+						capacityMonitor(w, "x", 1, 0)
+						linearizable(w, "x", 1, nil)
+						waiterMonitor(w, "x", 1)
+					})
+				},
+			}
+		}},
 		{name: "lock(wt5)||lock||unlock||+5s", props: []string{"C03", "C01"}, bound: 2, prog: func(t *testing.T) conc.Program {
 			return conc.Program{
 				Setup: func() any {
@@ -486,6 +505,24 @@ func templates() []template {
 				Threads: []conc.Thread{
 					{Name: "U", Run: func(c any) { c.(*world).unlock("U", "s1", "x", "h") }},
 					{Name: "R", Run: func(c any) { c.(*world).renew("R", "x", "h", 100) }},
+				},
+				Ticks: []time.Duration{5 * time.Second},
+				Finish: func(c any) conc.Outcome {
+					w := c.(*world)
+					return finish(w, func() { truthMonitor(w, "x", "h", 100) })
+				},
+			}
+		}},
+		{name: "renew||renew||expiry", props: []string{"C05"}, bound: 2, prog: func(t *testing.T) conc.Program {
+			return conc.Program{
+				Setup: func() any {
+					w := newWorld(t, cfgFile(), "s1", "s2")
+					w.mustTry("s1", "x", nil, p32(5), "h")
+					return w
+				},
+				Threads: []conc.Thread{
+					{Name: "R", Run: func(c any) { c.(*world).renew("R", "x", "h", 100) }},
+					{Name: "Q", Run: func(c any) { c.(*world).renew("Q", "x", "h", 100) }},
 				},
 				Ticks: []time.Duration{5 * time.Second},
 				Finish: func(c any) conc.Outcome {
